@@ -32,6 +32,8 @@ type ExprEnv struct {
 	a0   string
 	pkg  *types.Package
 	errs []string
+	oldVars map[string]tval           // values of loop variables at the loop head (iter clauses)
+	visited func(k string) string     // the visited-set of the enclosing map range at this point
 }
 
 func (x *ExprEnv) errf(f string, a ...interface{}) tval {
@@ -193,6 +195,9 @@ func (x *ExprEnv) pkgMember(p *types.Package, name string) tval {
 
 func (x *ExprEnv) selectField(b tval, name string) tval {
 	e := x.e
+	if _, isI := b.typ.Underlying().(*types.Interface); isI {
+		return x.ifaceField(b, name)
+	}
 	obj, path, _ := types.LookupFieldOrMethod(b.typ, true, x.pkgFor(b.typ), name)
 	if _, ok := obj.(*types.Var); !ok {
 		return x.errf("no field %s in %s", name, b.typ)
@@ -317,9 +322,35 @@ func (x *ExprEnv) call(n *ast.CallExpr) tval {
 			if x.old == nil {
 				return x.errf("old() not available here")
 			}
-			return x.withState(x.old).tr(n.Args[0])
+			o := x.withState(x.old)
+			if x.oldVars != nil {
+				o.vars = x.oldVars
+			}
+			return o.tr(n.Args[0])
+		case "visited":
+			if x.visited == nil {
+				return x.errf("visited() only inside a map-range loop invariant")
+			}
+			k := x.tr(n.Args[0])
+			return tval{t: x.visited(k.t), typ: bt}
 		case "implies":
-			a, b := x.tr(n.Args[0]), x.tr(n.Args[1])
+			a := x.tr(n.Args[0])
+			ne := len(x.errs)
+			b := x.tr(n.Args[1])
+			if len(x.errs) > ne {
+				// a consequent that mentions a variable not yet declared at this program point cannot hold
+				// here: the clause then demands that the antecedent is false at this point
+				onlyUnknown := true
+				for _, er := range x.errs[ne:] {
+					if !strings.HasPrefix(er, "unknown identifier") {
+						onlyUnknown = false
+					}
+				}
+				if onlyUnknown {
+					x.errs = x.errs[:ne]
+					b = tval{t: "false", typ: bt}
+				}
+			}
 			return tval{t: "(=> " + a.t + " " + b.t + ")", typ: bt}
 		case "iff":
 			a, b := x.tr(n.Args[0]), x.tr(n.Args[1])
@@ -471,6 +502,9 @@ func (x *ExprEnv) call(n *ast.CallExpr) tval {
 				}
 				rt := sig.Results().At(0).Type()
 				name := "IM_" + typeKey(b.typ) + "_" + fo.Name() + "_0"
+				if nt, ok := b.typ.(*types.Named); ok && nt.Obj().Pkg() != nil && e.w.mine[nt.Obj().Pkg()] && !e.w.pureIfaceMethod(b.typ, fo) && e.w.readerIfaceMethod(b.typ, fo) {
+					name = fmt.Sprintf("IMv%d_%s_%s_0", x.st.ver, typeKey(b.typ), fo.Name())
+				}
 				var sorts []string
 				for _, t := range ats {
 					sorts = append(sorts, e.d.sortOf(t))
@@ -604,4 +638,44 @@ func (x *ExprEnv) funcCall(fn *ssa.Function, recv *tval, argx []ast.Expr) tval {
 		return tval{t: name, typ: rt}
 	}
 	return tval{t: "(" + name + " " + strings.Join(args, " ") + ")", typ: rt}
+}
+
+// ifaceField: x.f where x is a value of an hcl-lang interface type all of whose implementations that
+// have a field f agree on its type: an uninterpreted function of the interface value, tied to the real
+// field at every conversion of a concrete value to the interface (see finish).
+func (x *ExprEnv) ifaceField(b tval, name string) tval {
+	e := x.e
+	iface, _ := b.typ.Underlying().(*types.Interface)
+	var ft types.Type
+	for _, T := range e.w.prog.RuntimeTypes() {
+		if _, isI := T.Underlying().(*types.Interface); isI {
+			continue
+		}
+		if !types.Implements(T, iface) {
+			continue
+		}
+		st, ok := T.Underlying().(*types.Struct)
+		if !ok {
+			continue
+		}
+		for i := 0; i < st.NumFields(); i++ {
+			if st.Field(i).Name() == name {
+				if ft == nil {
+					ft = st.Field(i).Type()
+				} else if !types.Identical(ft, st.Field(i).Type()) {
+					return x.errf("field %s has different types among implementations of %s", name, b.typ)
+				}
+			}
+		}
+	}
+	if ft == nil {
+		return x.errf("no implementation of %s has a field %s", b.typ, name)
+	}
+	uf := "IF_" + typeKey(b.typ) + "_" + name
+	e.d.decl(uf, "(Iface) "+e.d.sortOf(ft))
+	if e.ifaceFieldUFs == nil {
+		e.ifaceFieldUFs = map[string]ifaceFieldUF{}
+	}
+	e.ifaceFieldUFs[uf] = ifaceFieldUF{b.typ, name, uf}
+	return tval{t: "(" + uf + " " + b.t + ")", typ: ft}
 }
